@@ -92,11 +92,13 @@ namespace c16
   template<typename DT> inline LD tol_of(double kappa, LD S) { return 256.0L * (LD)kappa * unit_roundoff<DT>() * S + tiny<DT>(); }
 
   /// two routes computing the same matrix: entries agree within tol_of(kappa, max|A|) (same arithmetic up to ordering / FMA)
-  template<typename DT> inline void check_same(const Dn& A, const Dn& B, double kappa, const char* what)
+  /// floor: additional absolute tolerance for operators with coefficient functions whose exact value may vanish by
+  /// cancellation of O(1) terms (e.g. grad of a constant convection field): 64*u*(natural magnitude of the cancelling terms)
+  template<typename DT> inline void check_same(const Dn& A, const Dn& B, double kappa, const char* what, LD floor = 0.0L)
   {
     VF_CHECK(A.r == B.r && A.c == B.c, what << ": dimensions differ");
     VF_CHECK(B.finite(), what << ": non-finite entries");
-    const LD sc = std::max(A.maxabs(), B.maxabs()); const LD tol = tol_of<DT>(kappa, sc);
+    const LD sc = std::max(A.maxabs(), B.maxabs()); const LD tol = tol_of<DT>(kappa, sc) + floor;
     for(long i = 0; i < A.r; ++i) for(long j = 0; j < A.c; ++j)
       VF_CHECK(fabsl(A(i, j) - B(i, j)) <= tol, what << ": entry (" << i << "," << j << ") " << (double)A(i, j) << " vs " << (double)B(i, j) << " tol " << (double)tol);
   }
